@@ -62,6 +62,8 @@ def confirm(wt, k, prop):
     pkg = ["-p", "prometheus-static-metric"] if demo_rel.startswith("static-metric/") else []
     test_name = os.path.basename(demo_rel)[:-3]
     release = ["--release"] if "--release" in readme else []
+    # extra cargo flags for the demonstration only (e.g. a defect of the plain data model: --no-default-features)
+    release += os.environ.get("VERIF_DEMO_FLAGS", "").split()
     log = {}
     rc, out = sh(["git", "status", "--porcelain", "--untracked-files=no"], wt)
     if out.strip():
